@@ -43,7 +43,7 @@
    transforms, top-level update / transform; see docs/C03.md. *)
 From Coq Require Import List ZArith Bool Arith.
 From SC Require Import Base.Res Base.PyList Inst.Heap Inst.ClassTable Inst.Model Inst.TypeProofs Inst.TypeCopy
-  Inst.OwnProofs Inst.OwnProofs2 Inst.OwnProofs3 Inst.OwnColl Inst.OwnCopy Inst.OwnCow Inst.OwnInit Inst.OwnMore Inst.OwnAll.
+  Inst.OwnProofs Inst.OwnProofs2 Inst.OwnProofs3 Inst.OwnColl Inst.OwnCopy Inst.OwnCow Inst.OwnInit Inst.OwnMore Inst.OwnInval Inst.OwnAll.
 Import ListNotations.
 Open Scope nat_scope.
 
@@ -550,25 +550,37 @@ Theorem C03_transform_copy_on_write :
     Inv ct (heap (snd (run_helper ct l (HTransform a) hh s))).
 Proof. exact transform_cow. Qed.
 
+(* ---------------- 10. invalidated_by (OwnInval.v) ----------------
+   All the operation theorems above are stated for `inval_spec ct`: invalidate_attrs preserves
+   TypeInv /\ Owned and every frame.  Tables without invalidated_by satisfy it trivially
+   (no_inval_spec); so do the tables in which every class that declares invalidated_by has only
+   leaf attributes with a scalar / factory-of-scalars default (inval_ok): every transitive
+   dependant is deleted or reset by the leaf machinery, AttributeError swallowed. *)
+Theorem C03_invalidation_preserves_owned :
+  forall ct, flat_table ct ->
+    (no_inval_table ct -> inval_spec ct) /\ (inval_ok ct -> inval_spec ct).
+Proof. intros ct Hf. split; [apply no_inval_spec|apply inval_ok_spec; auto]. Qed.
+
 (* the combined statement, with the operations covered as a computable predicate (owned_opg_b,
    coq/Inst/OwnAll.v).  Leaf attribute: annotation scalar or List/Set/Dict of scalars, preparers
-   (if any) quiet callbacks.  Covered: the constructor of a flat class (keyword values flat);
-   obj.a = v, with_<a>(v), update_<a>(v) in place and copy-on-write (fresh argument);
-   transform_<a>(f) copy-on-write; with_<item>, update_<item>, transform_<item>, without_<item>
-   in place and copy-on-write (any arguments); del obj.a and reset_<a>(_inplace=True);
-   copy.deepcopy of flat values; the caller building a container of scalars.
-   PARTIAL: the full statement quantifies over every operation (reset / reset_<a>
-   copy-on-write, top-level update / transform, keyword attributes and attribute transforms,
-   positional constructor argument, transform_<a> in place) and every flat table
-   (invalidated_by, nested spec classes / Any as elements, do_not_copy, inheritance,
+   (if any) quiet callbacks.  Covered: the constructor of a flat class (keyword and positional
+   values flat); obj.a = v, with_<a>(v), update_<a>(v) in place and copy-on-write (fresh
+   argument); transform_<a>(f) copy-on-write; with_<item>, update_<item>, transform_<item>,
+   without_<item> in place and copy-on-write (any arguments); del obj.a, reset_<a>() and
+   reset() in place and copy-on-write; copy.deepcopy of flat values; the caller building a
+   container of scalars.  Tables: inval_ok_b (invalidated_by allowed in classes whose
+   attributes are all leaf attributes with simple defaults).
+   PARTIAL: the full statement quantifies over every operation (top-level update / transform,
+   keyword attributes and attribute transforms, transform_<a> in place) and every flat table
+   (nested spec classes / Any as elements, do_not_copy, inheritance,
    __post_init__ / __post_copy__, callbacks that copy their argument). *)
 Theorem C03_step_preserves_owned_partial :
   forall ct roots o s,
-    flat_table ct -> no_inval_b ct = true -> no_reserved_b ct = true ->
+    flat_table ct -> inval_ok_b ct = true -> no_reserved_b ct = true ->
     owned_opg_b ct (heap s) roots o = true ->
     TypeInv ct s -> Owned ct (heap s) ->
     TypeInv ct (snd (step ct roots o s)) /\ Owned ct (heap (snd (step ct roots o s))).
-Proof. exact step_preserves_owned_g. Qed.
+Proof. exact step_preserves_owned_h. Qed.
 
 (* non-vacuity: a table with an int, a List[int], a List[str], a Set[int], a Dict[str,int]
    attribute and a List[int] attribute with default_factory; the guards hold; conforming and
@@ -680,6 +692,23 @@ Example C03_owned_guards_hold :
   owned_opg_b exCT [OInst 1 [(1, VInt 3%Z); (50, VRef 1)]; OList []] [VRef 0] (OpSetAttr 0 60 (VRef 1)) = false.
 Proof. vm_compute. repeat split. Qed.
 
+(* invalidated_by: ys (List[str]) is invalidated by xs (List[int]); assigning xs deletes ys *)
+Definition exA60i := mkattr 60 (TList TStr) VMissing None 1 true false None None [50].
+Definition exCT3 : ctable := [mkcls 1 [exA1; exA50; exA60i] false false None [1] 1 [] None None].
+Definition exH3 : list obj :=
+  [OInst 1 [(50, VRef 1); (60, VRef 2)]; OList [VInt 1%Z]; OList [VStr 2%Z]; OList [VInt 5%Z]].
+Example C03_invalidation_example :
+  no_inval_b exCT3 = false /\ inval_ok_b exCT3 = true /\ no_reserved_b exCT3 = true /\
+  owned_b exCT3 exH3 = true /\ ti_b exCT3 exH3 = true /\
+  owned_opg_b exCT3 exH3 [VRef 0] (OpSetAttr 0 50 (VRef 3)) = true /\
+  (let r := step exCT3 [VRef 0] (OpSetAttr 0 50 (VRef 3)) (mkst exH3 0 None) in
+   fst r = Ok VNone /\ nth_error (heap (snd r)) 0 = Some (OInst 1 [(50, VRef 3)]) /\
+   owned_b exCT3 (heap (snd r)) = true /\ ti_b exCT3 (heap (snd r)) = true) /\
+  owned_opg_b exCT3 exH3 [VRef 0] (OpHelper 0 (HWithItem 50) (exArgs [VInt 7%Z] false)) = true /\
+  (let r := step exCT3 [VRef 0] (OpHelper 0 (HWithItem 50) (exArgs [VInt 7%Z] false)) (mkst exH3 0 None) in
+   owned_b exCT3 (heap (snd r)) = true /\ ti_b exCT3 (heap (snd r)) = true).
+Proof. vm_compute. repeat split. Qed.
+
 Print Assumptions C03_checked_before_stored.
 Print Assumptions C03_bad_value_rejected.
 Print Assumptions C03_bad_element_rejected.
@@ -732,5 +761,7 @@ Print Assumptions C03_update_item_preserves_owned.
 Print Assumptions C03_transform_item_preserves_owned.
 Print Assumptions C03_update_preserves_owned.
 Print Assumptions C03_transform_copy_on_write.
+Print Assumptions C03_invalidation_preserves_owned.
 Print Assumptions C03_step_preserves_owned_partial.
 Print Assumptions C03_owned_guards_hold.
+Print Assumptions C03_invalidation_example.
